@@ -7,7 +7,10 @@
 tier=quick
 if [ "$1" = "-t" ]; then tier=$2; shift 2; fi
 seed=$1; shift
-cd /verif
+# the checks run from a snapshot of /verif (binary, harness, corpus, known findings) taken by
+# tools/seedsnap.sh, so that development in /verif does not disturb a running batch
+snap=${VERIF_SNAP:-/verif}
+cd $snap
 wt=/tmp/seedwt/$seed-$$
 out=/tmp/seedout/$seed-$$
 mkdir -p /tmp/seedwt "$out" /verif/work/seedlogs
@@ -18,7 +21,7 @@ git -C "$wt" apply "/verif/seeded/$seed/patch.diff" || { echo "patch does not ap
 for id in "$@"; do
   log=/verif/work/seedlogs/$seed-$id-$tier.log
   start=$(date +%s)
-  VERIF_REPO="$wt" VERIF_OUT="$out" ./bin/check $id --tier $tier >$log 2>&1
+  VERIF_DIR="$snap" VERIF_REPO="$wt" VERIF_OUT="$out" ./bin/check $id --tier $tier >$log 2>&1
   rc=$?
   end=$(date +%s)
   nv=$(grep -c "^VIOLATION" $log)
